@@ -18,7 +18,7 @@ func (b *sb) tx(sys, net int64, signers []int, conflicts []int, oracle int64, hi
 func (b *sb) bal(p, s int, amt int64) *sb { b.sc.bals[payerKey{p, s}] = amt; return b }
 func (b *sb) add(is ...int) *sb {
 	for _, i := range is {
-		b.sc.ops = append(b.sc.ops, op{kind: opAdd, i: i})
+		b.sc.ops = append(b.sc.ops, op{kind: opAdd, i: i, data: 10 + i})
 	}
 	return b
 }
@@ -35,6 +35,11 @@ func (b *sb) threshold(h uint32) *sb {
 }
 func (b *sb) stale(fpb int64, drops ...int) *sb {
 	b.sc.ops = append(b.sc.ops, op{kind: opStale, fpb: fpb, drops: drops})
+	return b
+}
+
+func (b *sb) conc(progs ...[]op) *sb {
+	b.sc.ops = append(b.sc.ops, op{kind: opStale}, op{kind: opConc, conc: progs}, op{kind: opStale})
 	return b
 }
 
@@ -92,7 +97,7 @@ func corpusScenarios() []*scenario {
 		// 4: a pooled transaction names the incoming one (step 1), with and without a common signer.
 		b := newSB("named-by-pooled", 4)
 		n := b.tx(0, 100, []int{2}, nil, -1, false)
-		x := b.tx(0, 150, []int{3}, []int{n}, -1, false)   // not signed by 2: removed for free
+		x := b.tx(0, 150, []int{3}, []int{n}, -1, false)    // not signed by 2: removed for free
 		y := b.tx(0, 150, []int{3, 2}, []int{n}, -1, false) // signed by 2: n must pay more than 150
 		n2 := b.tx(0, 400, []int{2}, nil, -1, false)
 		y2 := b.tx(0, 150, []int{3, 2}, []int{n2}, -1, false)
@@ -178,6 +183,59 @@ func corpusScenarios() []*scenario {
 		b.threshold(1).height(10).add(a, a2).height(11).stale(0).add(h, h2).
 			height(12).stale(0).add(h).add(c).height(13).stale(0).height(14).stale(0).add(a2).
 			threshold(3).height(17).stale(0).threshold(0).height(18).stale(0)
+		res = append(res, b.sc)
+	}
+	{
+		// 11: three clients race for a pool of capacity 2: replacement through Conflicts, eviction, removal and a
+		// refresh happen concurrently; the recorded lock order is replayed through the model
+		b := newSB("concurrent-clients", 2)
+		x := b.tx(0, 100, []int{2}, nil, -1, false)
+		y := b.tx(0, 300, []int{2}, []int{x}, -1, false)
+		z := b.tx(0, 200, []int{3}, nil, 7, false)
+		w := b.tx(0, 400, []int{3}, nil, 7, false)
+		v := b.tx(0, 150, []int{4}, nil, -1, false)
+		b.bal(2, 0, 1000).bal(3, 0, 1000).bal(4, 0, 1000)
+		b.add(x)
+		b.conc(
+			[]op{{kind: opAdd, i: y, data: 1}, {kind: opVerify, i: x}, {kind: opAdd, i: x, data: 2}, {kind: opRemove, i: y}},
+			[]op{{kind: opAdd, i: z, data: 3}, {kind: opAdd, i: w, data: 4}, {kind: opVerify, i: z}, {kind: opStale, fpb: 2, drops: []int{z}}},
+			[]op{{kind: opAdd, i: v, data: 5}, {kind: opRemove, i: x}, {kind: opAdd, i: v, data: 6}, {kind: opVerify, i: y}},
+		)
+		b.add(x, v)
+		res = append(res, b.sc)
+	}
+	{
+		// 12: the policy ratchet: loadPolicy only ever raises mp.feePerByte; a refresh that raises it drops what
+		// pays less, a refresh with a lower value changes nothing
+		b := newSB("policy-ratchet", 4)
+		a := b.tx(0, 100, []int{2}, nil, -1, false) // fee per byte 1
+		c := b.tx(0, 300, []int{3}, nil, -1, false) // 3
+		d := b.tx(0, 500, []int{4}, nil, -1, false) // 5
+		b.bal(2, 0, 1000).bal(3, 0, 1000).bal(4, 0, 1000)
+		b.add(a, c, d).stale(2).stale(1).add(a).stale(2).stale(3).stale(4).add(a, c)
+		res = append(res, b.sc)
+	}
+	{
+		// 13: resend at ages threshold*2^k only: threshold 2, added at height 5: due at 7, 9, 13 and not at 6, 8, 10, 11, 12;
+		// a transaction re-added later restarts its age; the callback receives the item's data
+		b := newSB("resend-ages", 4)
+		a := b.tx(0, 100, []int{2}, nil, -1, false)
+		c := b.tx(0, 200, []int{3}, nil, -1, false)
+		b.bal(2, 0, 1000).bal(3, 0, 1000)
+		b.threshold(2).height(5).add(a).height(6).stale(0).height(7).stale(0).add(c).height(8).stale(0).height(9).stale(0).
+			remove(a).add(a).height(10).stale(0).height(11).stale(0).height(13).stale(0).height(15).stale(0)
+		res = append(res, b.sc)
+	}
+	{
+		// 14: TryGetData among equally prioritized items (the binary search lands on the left bound of the run)
+		b := newSB("data-among-ties", 6)
+		var ids []int
+		for i := 0; i < 5; i++ {
+			ids = append(ids, b.tx(0, 200, []int{2 + i%3}, nil, -1, false))
+		}
+		h := b.tx(0, 1, []int{2}, nil, -1, true)
+		b.bal(2, 0, 10000).bal(3, 0, 10000).bal(4, 0, 10000)
+		b.add(ids...).add(h).remove(ids[2]).add(ids[2]).remove(ids[0])
 		res = append(res, b.sc)
 	}
 	return res
